@@ -1192,6 +1192,18 @@ def m_any_all(c):
     if rem.hi == 0:
         c.ret(Int.const(empty_result, 1, False))
         return
+    if it.cells:
+        # elements known by position: one of them that certainly lies in the remaining range and decides the quantifier decides the call;
+        # the others are folded into the summary element the general evaluation below speaks about
+        for k, cv in sorted(it.cells.items()):
+            if it.pos is not None and it.pos <= k < it.pos + rem.lo:
+                ck = new_tmp(c, c.st, cv, ("anycell", k))
+                bk = _closure_bools(c, clo, (Ref(ck, ()) if it.extra != "val" else cv, None))
+                if bk.is_const() and bk.lo == 1 - empty_result:
+                    c.I.emit("any_all", call=c, closure=clo, elem_bools=bk, iter_src=it)
+                    c.ret(Int.const(1 - empty_result, 1, False))
+                    return
+            elem = join_val(elem, cv)
     cell = new_tmp(c, c.st, elem, "anyelem")
     b = _closure_bools(c, clo, (Ref(cell, ()) if it.extra != "val" else elem, None))
     c.I.emit("any_all", call=c, closure=clo, elem_bools=b, iter_src=it)
